@@ -31,6 +31,8 @@ pub enum OKind {
 
 #[derive(Clone, Debug, PartialEq)]
 pub struct AttrObs {
+    /// name as written (`prefix:local`), taken from the attribute's own serialisation
+    pub qname: String,
     pub name: String,
     pub value: String,
     pub specified: bool,
